@@ -34,3 +34,68 @@ Example C05_example :
   legal ∅ [SAdd 5 true; SAdd 5 false; SHas 5 true; SRemove 5 true; SRemove 5 false; SAdd 5 true]%Z /\
   succ_events 5 [SAdd 5 true; SAdd 5 false; SHas 5 true; SRemove 5 true; SRemove 5 false; SAdd 5 true]%Z = [true; false; true].
 Proof. split; [|reflexivity]. simpl. repeat split; symmetry; try (apply bool_decide_eq_true; set_solver); try (apply bool_decide_eq_false; set_solver). Qed.
+
+(* ------------------------------------------------------------------ *)
+(* Concurrent part: per-value conservation over ALL interleavings.     *)
+(* ------------------------------------------------------------------ *)
+(* Proved on the small-step model SyncMap/Model.v (validated against the real
+   code by trace replay) for every number of sets, every list of programs made
+   of Has = Load, Add = LoadOrStore, Remove = LoadAndDelete ([frag]; any
+   length, any number of goroutines) and every schedule, i.e. in EVERY
+   reachable configuration, for every set j and value k:
+
+     (number of Adds of k that reported "added")         [stored]
+   - (number of Removes of k that reported "removed")    [deleted]
+   + (effects of calls in flight, decided but not yet reported: +1 for an Add
+      past its deciding step, -1 for a Remove that took k's entry out of the
+      dirty map)                                          [pending]
+   = 1 if k is in the set, else 0.
+
+   So successful Adds and Removes of a value can never get ahead of one another
+   by more than the calls in flight, whatever the interleaving; and when all
+   goroutines are done the balance IS the membership (second theorem). Uses the
+   concurrent invariants of SyncMap/Inv.v and the entry-reference discipline of
+   SyncMap/SetAtomic.v (part A). Not covered here: AddSet / RemoveSet / Len
+   (Range with a nested call) and the real-time order of the alternation
+   (needs the linearizability theorem of C04). *)
+From Typ Require Import SyncMap.Model SyncMap.Inv SyncMap.SetAtomic.
+
+Theorem C05_conservation : forall n progs sched j k i,
+  Forall (Forall frag) progs ->
+  let c := run_schedule (init_config n progs) sched in
+  nth_error (c_insts c) j = Some i ->
+  (stored j k (c_hist c) - deleted j k (c_hist c) + pending j k c = Aof (i_st i) k)%Z.
+Proof. exact conservation. Qed.
+Print Assumptions C05_conservation.
+
+Theorem C05_conservation_quiescent : forall n progs sched j k i,
+  Forall (Forall frag) progs ->
+  let c := run_schedule (init_config n progs) sched in
+  nth_error (c_insts c) j = Some i -> finished c = true ->
+  (stored j k (c_hist c) - deleted j k (c_hist c) = Aof (i_st i) k)%Z.
+Proof. exact conservation_quiescent. Qed.
+Print Assumptions C05_conservation_quiescent.
+
+(* Non-vacuity: G0 = Add 5; Remove 5 and G1 = Add 5; Has 5 on one set. The
+   Remove takes 5's entry out of the dirty map (pending = -1, 5 is absent),
+   G1's Add then re-adds 5 and reports "added" BEFORE the Remove has reported
+   (stored = 2, deleted = 0, pending = -1, 5 present), then the Remove reports. *)
+Definition c05_progs : list (list call) :=
+  [[CLoadOrStore 0 5 0 PNone; CLoadAndDelete 0 5]; [CLoadOrStore 0 5 0 PNone; CLoad 0 5]]%Z.
+Definition c05_sch (l : list nat) : list (nat * Z) := map (fun t => (t, 0%Z)) l.
+Definition c05_view (c : config) :=
+  (stored 0 5 (c_hist c), deleted 0 5 (c_hist c), pending 0 5 c, map (fun i => Aof (i_st i) 5) (c_insts c),
+   map thread_label (c_threads c)).
+
+Example C05_conservation_example :
+  let c1 := run_schedule (init_config 1 c05_progs) (c05_sch [0;0;0;0;0]) in    (* G0's Add has inserted, not yet unlocked *)
+  let c2 := run_schedule c1 (c05_sch [0; 0;0;0;0;0]) in                        (* Add returns; Remove: read1 lock read2 promote unlock *)
+  let c3 := run_schedule c2 (c05_sch [1;1;1;1;1;1]) in                         (* G1's Add, complete *)
+  let c4 := run_schedule c3 (c05_sch [0;0; 1;1;1;1;1;1]) in                    (* Remove's delete.load, delete.cas; G1's Has *)
+  c05_view c1 = (0, 0, 1, [1], [Some LOS_unlock; Some LOS_read1])%Z /\
+  c05_view c2 = (1, 0, -1, [0], [Some Delete_load; Some LOS_read1])%Z /\
+  c05_view c3 = (2, 0, -1, [1], [Some Delete_load; Some Load_read1])%Z /\
+  c05_view c4 = (2, 1, 0, [1], [None; None])%Z /\
+  finished c4 = true /\ map t_results (c_threads c4) = [[RLos 0 false; ROpt (Some 0)]; [RLos 0 false; ROpt (Some 0)]]%Z /\
+  Forall (Forall frag) c05_progs.
+Proof. vm_compute. repeat split; repeat constructor. Qed.
